@@ -358,6 +358,15 @@ def benign(c):
     return m != 0 and abs(a) <= 1e6 * abs(m) and abs(s) <= 1e6 * abs(m) and abs(m) >= 1e-290
 
 
+def overflow_only(c):
+    """all three arguments finite numbers, modulo and step non-zero - and modulo / step = +-inf"""
+    vals = [fh(c[k]["num"]) for k in MC if "num" in c[k]]
+    if len(vals) < 3 or any(v != v or abs(v) == INF for v in vals):
+        return False
+    a, m, s = vals
+    return m != 0 and s != 0 and abs(m / s) == INF
+
+
 def circ_close(x, y, m):
     d = abs(F(x) - F(y)) % abs(F(m))
     return min(d, abs(F(m)) - d) <= abs(F(m)) / 10 ** 6
@@ -367,11 +376,27 @@ def cmp_mc(c, io, drv):
     res = []
     n = c["n"]
     runs = io["runs"]
+    tw_of = {run["sp"]: tw for run, tw in zip(runs, drv["res"])}
     for run, tw in zip(runs, drv["res"]):
         e = exp_end(tw, n)
         if not same_bits(run["out"], tw["out"]) or run["end"] != e:
+            # D28 repaired (no batching when int(modulo/step) overflows): the plain one-by-one loop, whose
+            # arithmetic is that of the spelling with Stream(step)
+            alt = tw_of.get(run["sp"][:2] + "S") if tw["branch"].endswith(("OverflowError", "ValueError")) else None
+            if alt is not None and same_bits(run["out"], alt["out"]) and run["end"] == exp_end(alt, n):
+                continue
             res.append(("model", "modulo_counter float [%s, spelled %s]: impl=%s/%s twin=%s/%s" % (
                 tw["branch"], run["sp"], show(run["out"]), run["end"], show(tw["out"]), e)))
+    # --- D28: numbers vs streams.  All three arguments finite numbers, modulo != 0, but modulo/step overflows to
+    # inf: the all-numbers call (and the one with only `start` a stream) raises OverflowError from the batch size
+    # int(modulo/step) at the first read, the same call with Stream(step) / Stream(modulo) yields the counter
+    if c.get("all8") and drv["res"][0]["branch"].endswith("OverflowError") and overflow_only(c):
+        raised = [r["sp"] for r in runs if r["end"].endswith("OverflowError")]
+        yielding = [r["sp"] for r in runs if r["out"]]
+        if raised and yielding:
+            res.append(("spec", "modulo_counter float: numbers vs streams: spelled %s raises OverflowError (int(modulo/step), "
+                        "modulo/step = inf) while spelled %s it yields %s" % (
+                            raised, yielding[-1], show(runs[-1]["out"][:3]))))
     # --- what the theorems promise, stated on the impl's own float outputs ---
     for run in runs:
         for i, b in enumerate(run["out"]):
